@@ -1,4 +1,5 @@
 """C05 — each row's derived columns are the documented functions of its state."""
+import copy
 import math
 
 from vlib.common import Corr, Failure, f2b, import_repo
@@ -109,6 +110,18 @@ def search(chk, broken):
         if shot.atmo.density_ratio == 0:
             continue
         R = rng.choice([300.0, 900.0, 2400.0])
+        hist = ''
+        if rng.random() < 0.5:
+            # a session: the same shot was just fired at the same place in OTHER weather (another atmosphere object of the same station
+            # altitude, built before any firing) — nothing of that flight may show in the rows of this one
+            other = copy.copy(shot)
+            other.atmo = pbc.Atmo(shot.atmo.altitude, U.hPa(rng.uniform(700, 1050)), U.Celsius((shot.atmo.temperature >> U.Celsius) + rng.choice([-25, 20])),
+                                  rng.choice([0, 60]))
+            try:
+                (calc if rng.random() < 0.6 else pbc.Calculator(_config=cfg)).fire(other, U.Foot(R), U.Foot(R / 12))
+            except Exception:  # noqa
+                pass
+            hist = ' [right after the same shot was fired at the same station in other weather]'
         try:
             rows = calc.fire(shot, U.Foot(R), U.Foot(R / 12), extra_data=rng.random() < 0.5).trajectory
         except pbc.RangeError as e:
@@ -127,9 +140,16 @@ def search(chk, broken):
             x, y, v = r.distance >> U.Foot, r.height >> U.Foot, r.velocity >> U.FPS
             wd = r.windage >> U.Foot
             bad = []
-            c_local = shot.atmo.get_density_factor_and_mach_for_altitude(alt0 + y)[1]
+            # local speed of sound from the documented model, independently of the library's atmosphere functions: the station value
+            # within 30 ft of the station, else 20.0467 sqrt(T) m/s at the lapse-rate temperature (floored at -130 F)
+            t0c = shot.atmo.temperature >> U.Celsius
+            if abs(y) < 30:
+                c_local = math.sqrt((shot.atmo.temperature >> U.Fahrenheit) + 459.67) * 49.0223
+            else:
+                tk = max(t0c + y * -0.0019812, (-130.0 - 32) * 5 / 9) + 273.15
+                c_local = math.sqrt(tk) * 20.0467 * 3.2808399
             if not close(r.mach * c_local, v, 1e-3):
-                bad.append(f'mach {r.mach} * local speed of sound {c_local} != speed {v}')
+                bad.append(f'mach {r.mach} * local speed of sound {c_local} != speed {v}{hist}')
             if not close(r.energy >> U.FootPound, (w / 7000.0) * v * v / (2 * 32.17405), 2e-4):
                 bad.append(f'energy {r.energy >> U.FootPound} is not the kinetic energy')
             if not close(r.ogw >> U.Pound, w * w * v ** 3 * 1.5e-12, 1e-6):
@@ -175,7 +195,6 @@ def search(chk, broken):
                 pass
         # spin drift: same shot with and without twist
         if (shot.ammo.dm.length >> U.Inch) > 0 and (shot.ammo.dm.diameter >> U.Inch) > 0:
-            import copy
             tw = rng.choice([10.0, -9.0, 12.5])
             s0, s1 = copy.deepcopy(shot), copy.deepcopy(shot)
             s0.weapon.twist, s1.weapon.twist = U.Inch(0), U.Inch(tw)
